@@ -982,7 +982,7 @@ func c20r4(p *Program, r *Report) {
 			ps := ug.GuardFactsPSAbout(func(atom string) bool {
 				return strings.HasPrefix(atom, "§") || strings.Contains(atom, "CertPath") || strings.Contains(atom, "KeyPath") || !strings.Contains(atom, " ") && !strings.Contains(atom, ".")
 			})
-			ug.markNodes = nil
+			defer func(g *Graph) { g.markNodes = nil }(ug)
 			ug.factsCache, ug.factsPSCache = nil, nil
 			for _, e := range ug.Exits() {
 				rs, ok := e.Node.(*ast.ReturnStmt)
